@@ -252,7 +252,10 @@ class netcdf_indexer:
 
         dtype_unsigned_int = None
         if unpack:
-            is_unsigned_int = attributes.get("_Unsigned") in ("true", "True")
+            is_unsigned_int = (
+                attributes.get("_Unsigned") in ("true", "True")
+                and data.dtype.kind == "i"
+            )
             if is_unsigned_int:
                 data_dtype = data.dtype
                 dtype_unsigned_int = (
